@@ -8,14 +8,16 @@ REG = dict(
     timeout=dict(quick=900, thorough=7200),
     trusted_base=[
         "the accuracy figures of the property (2.5e-5 on cdf, 1e-4*max(1,v) / 0.2*max(1,v) on (b-a)*pdf, monotonicity defect "
-        "5e-5, the noiseless-regime bounds 0.4*c*o/(b-a) and 0.83*sqrt(o/(b-a))) are numerical facts, NOT theorems: they are "
+        "5e-5) are numerical facts, NOT theorems (the two noiseless-regime bounds 0.4*c*o/(b-a) and 0.83*sqrt(o/(b-a)) ARE theorems): they are "
         "decided on every run by the Float model <-> numpy correspondence (against drift) and by an mpmath quadrature of two "
         "algebraically different convolution integrals (against the Spec)",
         "the Spec is taken in its mixture form H(t) = int_0^1 Phi((t-x)/s) d(x^(c/2)) (law of Z+E after conditioning on Z; the "
         "independence/Fubini step to it is not formalised); from there the convolution identity H = Phi(point) + int_0^1 x^(c/2) dN "
         "IS proved for every c >= 1",
-        "not proved: the accuracy of the Chebyshev fallback, of the downward step for k=-1/2 and of the normal regime, the "
-        "noiseless-regime constant 0.83 for c=1 (0.4*c*o/(b-a) for c>=2 is proved), Phi(+-inf) in {0,1} at Float",
+        "not proved: the accuracy of the Chebyshev fallback, of the downward step for k=-1/2 and of the normal regime, "
+        "Phi(+-inf) in {0,1} at Float (both noiseless-regime constants are proved: 0.4*c*o/(b-a) for c>=2 by the Lipschitz "
+        "constant times E|E|, 0.83*sqrt(o/(b-a)) for c=1 by Hoelder-1/2 times E sqrt|E| = (2o^2)^(1/4) Gamma(3/4)/sqrt(pi), "
+        "with Gamma(3/4) <= 1.2345 from the log-convexity of Gamma between 9/2 and 5)",
         "IEEE-754 rounding in numpy/scipy (erf, exp, pow, cos) is not modelled; the comparator allows 1e-12 + 16 x the spread of "
         "the model under +-8-ulp jitter of every transcendental result and sends ill-conditioned cases (allowance above a tenth "
         "of the property's tolerance) to the oracle instead",
@@ -45,10 +47,10 @@ TEXT = dict(
           "every hypothesis on the pieces): for every odd c in {1,3,5,7,9}, both shapes, every scale of the series regime and "
           "EVERY real y, |cdf - Spec| <= 1.02*max_error of the entry the scale o/(b-a) selects (uniform form: of the row), and "
           "for odd c in {3,..,9} |(b-a)*pdf - density| <= (c/2)*1.02*max_error of the selected entry of row c-2; for c in {7,9} "
-          "this IS the property's 2.5e-5 (cdf) and for c=9 its 1e-4 (pdf), in exact real arithmetic; in the noiseless regime the returned noise-free law is within 0.4*c*o/(b-a) of its convolution with the "
-          "noise (c>=2). The model is tied to the code on every run (Float, jitter-calibrated allowance, both sides of "
+          "this IS the property's 2.5e-5 (cdf) and for c=9 its 1e-4 (pdf), in exact real arithmetic; in the noiseless regime the returned noise-free law is within 0.4*c*o/(b-a) (c>=2) resp. 0.83*sqrt(o/(b-a)) (c=1, both shapes, every real y) of its convolution with the "
+          "noise - both constants of the property. The model is tied to the code on every run (Float, jitter-calibrated allowance, both sides of "
           "every switch point) and the property's own thresholds are evaluated against an mpmath convolution oracle.",
-    note="Partial: the 2.5e-5 / 1e-4 / 0.2 / 5e-5 figures and the c=1 noiseless constant 0.83 are numerical facts decided by "
+    note="Partial: the 2.5e-5 / 1e-4 / 0.2 / 5e-5 figures are numerical facts decided by "
          "correspondence + oracle on every run, not theorems in general (the proved bound for odd c with the shipped table is 1.02*max_error of the "
          "selected entry, 2.5e-7..8.1e-4: it implies the 2.5e-5 only for c in {7,9} and the small-scale entries of c in {1,3,5}; "
          "for the pdf (c/2)*1.02*max_error, implying 1e-4 for c=9); the pdf of c=1 (order -1/2) is not covered by a theorem; the Chebyshev fallback's and the normal regime's accuracy, the downward step for k=-1/2 and float rounding "
